@@ -122,9 +122,18 @@ def evaluate_right_side(cx):
         ex.need(st, z3.And(z3.Length(pop.t) == z3.Length(polys.t), z3.Length(w.t) == z3.Length(probs.t),
                            z3.ForAll([j], z3.Implies(z3.And(0 <= j, j < z3.Length(polys.t)), pop.t[j] == VALAT(polys.t[j]))),
                            z3.ForAll([j], z3.Implies(z3.And(0 <= j, j < z3.Length(probs.t)), w.t[j] == VALAT(probs.t[j]))),
-                           toint(kw['k']) == 1), 'random_choices.arguments@0', 'ensures')
+                           (toint(kw['k']) == 1) if 'k' in kw else z3.BoolVal(True)), 'random_choices.arguments@0', 'ensures')
         return V('seq', z3.Unit(z3.Const('chosen', R)), ek=DN)
     cx.call('random.choices', choices, trusted='random.choices(population, weights, k=1): one element drawn with the given weights')
+
+    def generic_seq(name):
+        def h(ex, st, r, a, kw):            # dict(...), list(dict), dict.values(): some sequence of numbers about which nothing is known
+            return V('seq', ex.fresh(z3.SeqSort(R), name), ek=DN)
+        return h
+    cx.call('dict', lambda ex, st, r, a, kw: V('table', None)); cx.call('zip', lambda ex, st, r, a, kw: V('opaque'))
+    cx.call('list', lambda ex, st, r, a, kw: generic_seq('keys')(ex, st, r, a, kw) if a and a[0].kind in ('table', 'opaque') else NotImplemented)
+    cx.call('values', lambda ex, st, r, a, kw: generic_seq('values')(ex, st, r, a, kw) if r.kind == 'table' else NotImplemented)
+    cx.call('keys', lambda ex, st, r, a, kw: generic_seq('keys')(ex, st, r, a, kw) if r.kind == 'table' else NotImplemented)
     allnum = lambda seq, upto: z3.ForAll([j], z3.Implies(z3.And(0 <= j, j < upto), ISNUM(seq[j])))
     cx.invariant(0, lambda st: z3.And(z3.Length(st['probabilities'].t) == st['$i0'].t, allnum(probs.t, st['$i0'].t),
                                       z3.ForAll([j], z3.Implies(z3.And(0 <= j, j < st['$i0'].t), st['probabilities'].t[j] == VALAT(probs.t[j])))))
